@@ -7,13 +7,13 @@ toolchain go1.23.5
 require (
 	github.com/AdguardTeam/urlfilter v0.0.0
 	github.com/miekg/dns v1.1.61
+	golang.org/x/net v0.34.0
 	golang.org/x/tools v0.29.0
 )
 
 require (
 	github.com/AdguardTeam/golibs v0.29.0 // indirect
 	golang.org/x/mod v0.22.0 // indirect
-	golang.org/x/net v0.34.0 // indirect
 	golang.org/x/sync v0.10.0 // indirect
 	golang.org/x/sys v0.29.0 // indirect
 )
